@@ -67,6 +67,7 @@ class Interp:
         self.n_steps = 0
         self.call_ctx = []
         self.ret_trace = {}
+        self.track_writes = False
 
     # ------------------------------------------------------------------ roles
     def _reader_bodies(self):
@@ -322,8 +323,20 @@ class Interp:
                 elif path == ('incomplete_pos',):
                     if isinstance(val, tuple) and val[0] == 'e' and val[1] == 'Option':
                         heap['inc'] = val[2]
+                        if self.track_writes:
+                            pv = val[3][0] if val[2] == 'Some' and val[3] else None
+                            heap['incv'] = pv[2] if isinstance(pv, tuple) and pv and pv[0] == 'e' else ('-' if val[2] == 'None' else '?')
                     else:
                         heap['inc'] = '?'
+                elif self.track_writes and path and path[0] == 'buf_pos':
+                    kind = 'set'
+                    if stmt is not None and stmt.rv.k == 'bin' and stmt.rv.j['op'].startswith('Sub'):
+                        kind = 'shift'
+                    elif stmt is not None and stmt.rv.k == 'use' and stmt.rv.ops[0].is_const and stmt.rv.ops[0].const_int() == 0:
+                        kind = 'zero'
+                    w = set(heap.get('w', ()))
+                    w.add(('.'.join(path[1:]), kind))
+                    heap['w'] = tuple(sorted(w))
             else:
                 if path and path[-1] == 'npos':
                     if isinstance(val, tuple) and val == ('int', 0):
@@ -534,6 +547,17 @@ class Interp:
                 finish(B(False), heap.copy())
             else:
                 finish(B(r if path.endswith('::eq') else not r), heap)
+            return outs
+        if path in ('std::cmp::PartialOrd::ge', 'std::cmp::PartialOrd::gt', 'std::cmp::PartialOrd::le', 'std::cmp::PartialOrd::lt'):
+            a = self.deref_val(args[0], store, heap)
+            d = self.deref_val(args[1], store, heap)
+            ia = self.variant_index(a[1], a[2]) if a[0] == 'e' and not a[3] else None
+            idd = self.variant_index(d[1], d[2]) if d[0] == 'e' and not d[3] else None
+            if ia is not None and idd is not None and a[1] == d[1]:
+                finish(B({'ge': ia >= idd, 'gt': ia > idd, 'le': ia <= idd, 'lt': ia < idd}[path.rsplit('::', 1)[-1]]), heap)
+            else:
+                finish(B(True), heap.copy())
+                finish(B(False), heap.copy())
             return outs
         if path == 'std::ops::Try::branch':
             a = args[0]
